@@ -690,6 +690,35 @@ def desugar_slices(fn):
         d.targets = [ast.copy_location(ast.Name(
             id=name + '__stop', ctx=ast.Store()), d.targets[0])]
         d.value = hi
+    # `dims = slice(lo, end)` with a plain name as upper bound: the helper
+    # variable is that name (no further alias for the rules to follow)
+    ren = {}
+    for name, (d, lo, hi) in ndefs.items():
+        if isinstance(hi, ast.Name):
+            hn = hi.id
+            later = [x for x in ast.walk(new) if isinstance(
+                x, (ast.Assign, ast.AugAssign)) and x is not d and any(
+                    isinstance(y, ast.Name) and y.id == hn and isinstance(
+                        y.ctx, ast.Store) for t in (
+                        x.targets if isinstance(x, ast.Assign)
+                        else [x.target]) for y in ast.walk(t))
+                and x.lineno > d.lineno]
+            uses = [x for x in ast.walk(new) if isinstance(x, ast.Name)
+                    and x.id == name + '__stop' and isinstance(
+                        x.ctx, ast.Load)]
+            # exact when the upper-bound name is not re-bound between the
+            # definition of the slice and any of its uses
+            if not any(d.lineno < l.lineno < u.lineno
+                       for l in later for u in uses):
+                ren[name + '__stop'] = hn
+    if ren:
+        class R2(ast.NodeTransformer):
+            def visit_Name(self, x):
+                if x.id in ren and isinstance(x.ctx, ast.Load):
+                    return ast.copy_location(ast.Name(id=ren[x.id],
+                                                      ctx=ast.Load()), x)
+                return x
+        R2().visit(new)
     ast.fix_missing_locations(new)
     for parent in ast.walk(new):
         for child in ast.iter_child_nodes(parent):
@@ -832,6 +861,93 @@ def partition_blocks(repo, cls, fn, loop, parts, report_ok, report_bad):
                     parts[n.value.id])[:50]))
 
 
+def shifted_copy(repo, cls, fn, loop, report_ok, report_bad):
+    """Gap copy `dst[.., a:b] = src[.., a-h:b-h]` in a loop (dst has extra
+    blocks that src lacks; h is the total width of the blocks skipped so
+    far): the blocks read from src are consecutive, i.e. after one iteration
+    the next source start equals the previous source end:
+        a' - h' == b - h
+    decided by executing the straight-line body symbolically."""
+    import sympy as sp
+    construct = '%s.%s' % (cls, fn.name) if cls else fn.name
+    for st in loop.body:
+        if not (isinstance(st, ast.Assign) and isinstance(
+                st.targets[0], ast.Subscript) and isinstance(
+                st.value, ast.Subscript)):
+            continue
+
+        def last_slice(sub):
+            sl = sub.slice
+            e = sl.elts[-1] if isinstance(sl, ast.Tuple) else sl
+            return e if isinstance(e, ast.Slice) else None
+        d, r = last_slice(st.targets[0]), last_slice(st.value)
+        if d is None or r is None or not all(
+                isinstance(x, ast.Name) for x in (d.lower, d.upper)):
+            continue
+        lo, hi = d.lower.id, d.upper.id
+
+        def shifted(e, base):
+            return isinstance(e, ast.BinOp) and isinstance(e.op, ast.Sub) \
+                and U(e.left) == base and isinstance(e.right, ast.Name)
+        if not (shifted(r.lower, lo) and shifted(r.upper, hi)
+                and r.lower.right.id == r.upper.right.id):
+            continue
+        sh = r.lower.right.id
+        # symbolic execution of the body (plain assignments only)
+        env = {}
+
+        def val(e):
+            if isinstance(e, ast.Name):
+                return env.get(e.id, sp.Symbol(e.id))
+            if isinstance(e, ast.Constant) and isinstance(
+                    e.value, (int, float)):
+                return sp.Integer(e.value)
+            if isinstance(e, ast.BinOp) and isinstance(
+                    e.op, (ast.Add, ast.Sub)):
+                a, b = val(e.left), val(e.right)
+                return a + b if isinstance(e.op, ast.Add) else a - b
+            return sp.Symbol(U(e).replace(' ', ''))
+        ok = True
+        hi_at_copy = sh_at_copy = None
+        for b in loop.body:
+            if b is st:
+                hi_at_copy, sh_at_copy = val(d.upper), val(
+                    ast.Name(id=sh, ctx=ast.Load()))
+                continue
+            if isinstance(b, ast.Assign) and len(b.targets) == 1 \
+                    and isinstance(b.targets[0], ast.Name):
+                env[b.targets[0].id] = val(b.value)
+            elif isinstance(b, ast.AugAssign) and isinstance(
+                    b.target, ast.Name) and isinstance(
+                    b.op, (ast.Add, ast.Sub)):
+                cur = val(b.target)
+                env[b.target.id] = cur + val(b.value) if isinstance(
+                    b.op, ast.Add) else cur - val(b.value)
+            elif isinstance(b, (ast.Expr, ast.Pass)):
+                continue
+            else:
+                ok = False
+        where = repo.loc(st, cls, fn.name)
+        if not ok or hi_at_copy is None:
+            continue
+        lo_next = val(ast.Name(id=lo, ctx=ast.Load()))
+        sh_next = val(ast.Name(id=sh, ctx=ast.Load()))
+        if sp.expand((lo_next - sh_next) - (hi_at_copy - sh_at_copy)) == 0:
+            report_ok(where, construct,
+                      'the blocks read from the narrower array are '
+                      'consecutive (next source start = previous source '
+                      'end)')
+        else:
+            report_bad(
+                where, construct, 'source cursor %s' % sh,
+                '`%s` reads the source at `%s - %s`; after one iteration '
+                'the next source start is %s but the previous block ended '
+                'at %s: blocks of the source are skipped or read twice' % (
+                    norm_stmt(st)[:60], lo, sh,
+                    sp.expand(lo_next - sh_next),
+                    sp.expand(hi_at_copy - sh_at_copy)))
+
+
 def scoped(name, classes=None, files=None, floor=1):
     """R05.4 restricted to some classes / files (same rule, own floor)."""
     def rule(ctx, repo):
@@ -870,6 +986,7 @@ def r05_4(ctx, repo, classes=None, files=None, floor=24):
                 merge_accumulators(repo, cls, fn, loop, ok, bad)
                 boundary_slices(repo, cls, fn, loop, tables, ok, bad)
                 partition_blocks(repo, cls, fn, loop, parts, ok, bad)
+                shifted_copy(repo, cls, fn, loop, ok, bad)
                 if len(ctx.obligations) > before:
                     n_loops += 1
     if n_loops < floor:
